@@ -35,6 +35,24 @@ def _has_quant(f):
     return res
 
 
+def _z3_consts(f):
+    """the uninterpreted constants (0-ary) of a term"""
+    out, seen, stack = [], set(), [f]
+    while stack:
+        x = stack.pop()
+        i = x.get_id()
+        if i in seen:
+            continue
+        seen.add(i)
+        if z3.is_quantifier(x):
+            stack.append(x.body())
+        elif z3.is_app(x):
+            if x.num_args() == 0 and x.decl().kind() == z3.Z3_OP_UNINTERPRETED:
+                out.append(x)
+            stack.extend(x.children())
+    return out
+
+
 class Obligation:
     def __init__(self, name, hyps, goal, kind, line, fn, expect='proved', meta=None):
         self.name = name
@@ -301,8 +319,21 @@ class Engine:
             if ast.unparse(f) in ('copy.deepcopy', 'copy.copy'):
                 self.libs_used.add('LC-DEEPCOPY: deepcopy/copy return an equal value (value semantics; freshness is C08\'s frame claim)')
                 return ev.ev(n.args[0], ctx)
+            if ast.unparse(f) in ('itertools.permutations', 'itertools.combinations', 'itertools.combinations_with_replacement',
+                                  'itertools.product'):
+                return self.itertools_call(f.attr, n, ctx, ev)
             recv = ev.ev(f.value, ctx)
             rr = recv
+            am = getattr(self, 'abstract_methods', {})
+            if isinstance(rr.ty, TAbs) and (rr.ty.name, f.attr) in am:
+                # a method of an opaque type declared in the contract module (ABSTRACT_METHODS): an uninterpreted function of the
+                # receiver and the arguments
+                argtys, rty = am[(rr.ty.name, f.attr)]
+                argtys = [parse_type(a, self.aliases) for a in argtys]
+                rty = parse_type(rty, self.aliases)
+                fn_ = z3.Function(f'am_{rr.ty.name}_{f.attr}', *([rr.ty.sort()] + [a.sort() for a in argtys] + [rty.sort()]))
+                args = [coerce(ev.ev(a, ctx), ty).t for a, ty in zip(n.args, argtys)]
+                return V(rty, fn_(rr.t, *args))
             if isinstance(rr.ty, TOpt) and isinstance(rr.ty.inner, (TRec, TDict)):
                 rr = ev.unwrap_opt(rr, ctx, 'AttributeError')
             if isinstance(rr.ty, TRec):
@@ -698,6 +729,39 @@ class Engine:
             ctx.assume(z3.ForAll([a, b], z3.Implies(ext, f_(a) == f_(b)), patterns=[z3.MultiPattern(f_(a), f_(b))]))
         return V(rt, f_(v.t))
 
+    def itertools_call(self, name, n, ctx, ev):
+        """itertools.permutations / combinations / combinations_with_replacement / product(list, k): the standard enumeration as an
+        uninterpreted function IT_<name>(list value, k) -> list of lists (LC-ITERTOOLS); its order and cardinality are the library's"""
+        src = ev.unwrap_opt(ev.ev(n.args[0], ctx), ctx)
+        if not isinstance(src.ty, TList):
+            raise OutOfSubset(f'itertools.{name} over {src.ty}')
+        if name == 'product':
+            kw = {k.arg: k.value for k in n.keywords}
+            if len(n.args) != 1 or set(kw) != {'repeat'}:
+                raise OutOfSubset('itertools.product form')
+            kn = kw['repeat']
+        else:
+            if len(n.args) != 2 or n.keywords:
+                raise OutOfSubset(f'itertools.{name} form')
+            kn = n.args[1]
+        k = to_int(ev.unwrap_opt(ev.ev(kn, ctx), ctx))
+        rt = TList(TList(src.ty.elem))
+        f_ = z3.Function('IT_' + name + '_' + src.ty.elem.name, src.ty.sort(), z3.IntSort(), rt.sort())
+        r = f_(src.t, k)
+        ctx.assume(rt.n(r) >= 0)
+        self.libs_used.add('LC-ITERTOOLS: itertools.permutations / combinations / combinations_with_replacement / product are functions of '
+                           '(list value, size); order and count of their results are the library\'s (bounded tier compares with the counts)')
+        return V(rt, r)
+
+    def meth_join(self, recv, n, ctx, ev):
+        if recv.ty == STR and len(n.args) == 1:
+            x = ev.ev(n.args[0], ctx)
+            if isinstance(x.ty, TList) and x.ty.elem == STR:
+                f_ = z3.Function('str_join', z3.StringSort(), x.ty.sort(), z3.StringSort())
+                self.libs_used.add('LC-JOIN: sep.join(list of str) is an uninterpreted function of (sep, list value)')
+                return V(STR, f_(recv.t, x.t))
+        raise OutOfSubset(f'.join on {recv.ty}')
+
     def meth_keys(self, recv, n, ctx, ev):
         if isinstance(recv.ty, TDict) and not n.args:
             return V(TSet(recv.ty.k), recv.ty.has(recv.t))     # a dict's key view, as a set value
@@ -976,6 +1040,31 @@ class Engine:
         ctx.assume(z3.ForAll([x], z3.Select(r, x) == z3.If(cond, z3.Select(src.t, x), z3.IntVal(0))))
         return V(bt, r)
 
+    def _elt_calls_pure(self, elt):
+        """every call in the element expression of a comprehension resolves to a pure contract, a str method or len()"""
+        for c in ast.walk(elt):
+            if isinstance(c, (ast.Yield, ast.Await, ast.NamedExpr, ast.Lambda, ast.ListComp, ast.GeneratorExp)):
+                return False
+            if not isinstance(c, ast.Call):
+                continue
+            f = c.func
+            if isinstance(f, ast.Name):
+                if f.id in ('len', 'str', 'int', 'float', 'abs', 'min', 'max', 'round'):
+                    continue
+                q = self.resolve(f.id)
+                if q and self.contracts[q].d.get('pure'):
+                    continue
+                return False
+            if isinstance(f, ast.Attribute):
+                if f.attr in ('join', 'lower', 'startswith', 'endswith', 'isdigit'):
+                    continue
+                qs = [q for q in self.contracts if q.split(':')[1].split('@')[0].endswith('.' + f.attr)]
+                if qs and all(self.contracts[q].d.get('pure') for q in qs):
+                    continue
+                return False
+            return False
+        return True
+
     def list_comprehension(self, n, ctx, ev):
         if len(n.generators) == 1 and isinstance(n.generators[0].iter, ast.Name):
             it_v = ctx.env.get(n.generators[0].iter.id)
@@ -1017,7 +1106,23 @@ class Engine:
         ctx.env.clear()
         ctx.env.update(saved_env)
         lt = TList(elt.ty)
-        R = fresh('lcomp', lt.sort())
+        R = None
+        if range_lo is None and self._elt_calls_pure(n.elt):
+            # [g(x) for x in src] with a side-effect-free element expression: the value is a FUNCTION of the source list value and
+            # of whatever else the expression mentions -- MAPF_<g>(src, c1..cn) -- so the same comprehension evaluated in a
+            # contract clause denotes the same list
+            from .execute import _consts_of
+            e = z3.Const('e!map', src.ty.elem.sort())
+            g_ = z3.substitute(elt.t, (z3.Select(src.ty.arr(src.t), k), e))
+            names = _consts_of(g_)
+            if str(k) not in names:
+                import hashlib
+                cs = sorted({str(c): c for c in _z3_consts(g_) if str(c) != 'e!map'}.items())
+                nm = 'MAPF_' + hashlib.sha1((g_.sexpr() + '|' + str(lt)).encode()).hexdigest()[:12]
+                f_ = z3.Function(nm, *([src.ty.sort()] + [c.sort() for _, c in cs] + [lt.sort()]))
+                R = f_(src.t, *[c for _, c in cs])
+        if R is None:
+            R = fresh('lcomp', lt.sort())
         ctx.assume(lt.n(R) == ln)
         ctx.assume(z3.ForAll([k], z3.Implies(z3.And(0 <= k, k < ln), z3.Select(lt.arr(R), k) == elt.t)))
         if range_lo is not None:
